@@ -110,7 +110,7 @@ def inv_chroma_mordant(new_note, last_note, next_note):
 
 def grupetto(new_note, last_note, next_note):
     duration = new_note.duration
-    if duration >= frac(1):
+    if duration >= frac(3, 2):
         mordant_duration = frac(1, 2)
         new_note = new_note.n + L.su1.set_duration(mordant_duration) + new_note.set_duration(mordant_duration) \
                    + L.sd1.set_duration(mordant_duration) + L.su1.set_duration(duration - 3 * mordant_duration)
@@ -152,6 +152,8 @@ def roll(new_note, last_note, next_note):
     duration = new_note.duration
     mordant_duration = frac(1, 4)
     nb_rolls = int(duration / mordant_duration)
+    if nb_rolls <= 0:
+        return new_note
     melody = None
     for i in range(nb_rolls):
         if (i % 2) == 0:
@@ -160,7 +162,7 @@ def roll(new_note, last_note, next_note):
             melody += L.su1.set_duration(mordant_duration)
 
     if nb_rolls != (duration / mordant_duration):
-        melody += L.l(duration - nb_rolls * mordant_duration)
+        melody += L.l.set_duration(duration - nb_rolls * mordant_duration)
     new_note = melody
 
     return new_note
@@ -169,6 +171,8 @@ def roll_fast(new_note, last_note, next_note):
     duration = new_note.duration
     mordant_duration = frac(1, 6)
     nb_rolls = int(duration / mordant_duration)
+    if nb_rolls <= 0:
+        return new_note
     melody = None
     for i in range(nb_rolls):
         if (i % 2) == 0:
@@ -177,14 +181,14 @@ def roll_fast(new_note, last_note, next_note):
             melody += L.su1.set_duration(mordant_duration)
 
     if nb_rolls != (duration / mordant_duration):
-        melody += L.l(duration - nb_rolls * mordant_duration)
+        melody += L.l.set_duration(duration - nb_rolls * mordant_duration)
     new_note = melody
     return new_note
 
 
 def suspension(new_note, last_note, next_note):
     duration = new_note.duration
-    if last_note:
+    if last_note and duration > 0:
         new_note = L.l.set_duration(duration / 2) + new_note.set_duration(duration / 2)
 
     return new_note
@@ -192,7 +196,7 @@ def suspension(new_note, last_note, next_note):
 
 def suspension_prev_repeat(new_note, last_note, next_note):
     duration = new_note.duration
-    if last_note:
+    if last_note and duration > 0:
         new_note = last_note.set_duration(duration / 2) + new_note.set_duration(duration / 2)
 
     return new_note
@@ -200,7 +204,8 @@ def suspension_prev_repeat(new_note, last_note, next_note):
 def retarded(new_note, last_note, next_note):
     duration = new_note.duration
     retarded_duration = frac(1, 12)
-    new_note = L.l.set_duration(retarded_duration) + new_note.set_duration(duration - retarded_duration)
+    if duration > retarded_duration:
+        new_note = L.l.set_duration(retarded_duration) + new_note.set_duration(duration - retarded_duration)
     return new_note
 
 
@@ -218,6 +223,8 @@ def interpolate(new_note, last_note, next_note):
 
     """
     from musiclang import Note
+    if not isinstance(new_note, Note):
+        return new_note
     if next_note is None or not next_note.is_note or not new_note.is_note:
         return new_note
     
